@@ -925,6 +925,10 @@ package ircserver
 //@ pred cfgRepr(p *pb.Snapshot_Config, c *config.Network) = p != nil && p.Irc != nil && p.Revision == c.Revision && c.SessionExpiration == parsedur(p.SessionExpiration) && c.PostMessageCooloff == parsedur(p.PostMessageCooloff) && p.TrustedBridges == c.TrustedBridges && p.CaptchaUrl == c.CaptchaURL && len(c.CaptchaHMACSecret) == hexlen(p.CaptchaHmacSecret) && (forall k int :: 0 <= k && k < len(c.CaptchaHMACSecret) ==> c.CaptchaHMACSecret[k] == hexbyte(p.CaptchaHmacSecret, k)) && p.CaptchaRequiredForLogin == c.CaptchaRequiredForLogin && p.MaxSessions == c.MaxSessions && p.MaxChannels == c.MaxChannels && (p.Banned != nil ==> c.Banned == p.Banned) && (p.Banned == nil ==> c.Banned != nil && (forall a string :: !(a in c.Banned))) && len(p.Irc.Operators) == len(c.IRC.Operators) && (forall k int :: 0 <= k && k < len(p.Irc.Operators) ==> p.Irc.Operators[k] != nil && p.Irc.Operators[k].Name == c.IRC.Operators[k].Name && p.Irc.Operators[k].Password == c.IRC.Operators[k].Password) && len(p.Irc.Services) == len(c.IRC.Services) && (forall k int :: 0 <= k && k < len(p.Irc.Services) ==> p.Irc.Services[k] != nil && p.Irc.Services[k].Password == c.IRC.Services[k].Password)
 //@ pred cfgTextOK(p *pb.Snapshot_Config) = parseok(p.SessionExpiration) && parseok(p.PostMessageCooloff) && hexok(p.CaptchaHmacSecret)
 
+// Nickname holds: keyed by the lowered nickname; time, duration (as text) and reason.
+//@ pred holdRepr(p *pb.Snapshot_SVSHold, h svshold) = p != nil && h.added == tsTime(p.Added) && h.duration == parsedur(p.Duration) && h.reason == p.Reason
+//@ pred holdsRepr(S *pb.Snapshot, i *IRCServer) = (forall n lcNick :: n in i.svsholds <==> (exists name string :: name in S.Svsholds && NickToLower(name) == n)) && (forall name string :: name in S.Svsholds ==> S.Svsholds[name] != nil && NickToLower(name) in i.svsholds && holdRepr(S.Svsholds[name], i.svsholds[NickToLower(name)]))
+//@ pred wfSnapHolds(S *pb.Snapshot) = (forall name string :: name in S.Svsholds ==> S.Svsholds[name] != nil && allocated(S.Svsholds[name]) && parseok(S.Svsholds[name].Duration)) && (forall a string, b string :: a in S.Svsholds && b in S.Svsholds && a != b ==> NickToLower(a) != NickToLower(b))
 // What Marshal guarantees about the shape of a snapshot (asserted there, assumed after decoding).
 //@ pred wfSnapSessions(S *pb.Snapshot) = (forall k int :: 0 <= k && k < len(S.Sessions) ==> S.Sessions[k] != nil && allocated(S.Sessions[k]) && S.Sessions[k].Id != nil && S.Sessions[k].IrcPrefix != nil && (forall j int :: 0 <= j && j < len(S.Sessions[k].Modes) ==> len(S.Sessions[k].Modes[j]) > 0 && S.Sessions[k].Modes[j][0] < 122)) && (forall a int, b int {S.Sessions[a], S.Sessions[b]} :: 0 <= a && a < b && b < len(S.Sessions) ==> snapId(S.Sessions[a]) != snapId(S.Sessions[b]))
 //@ pred wfSnapTop(S *pb.Snapshot) = S.LastProcessed != nil && S.Config != nil && S.Config.Irc != nil && cfgTextOK(S.Config) && (forall k int :: 0 <= k && k < len(S.Config.Irc.Operators) ==> S.Config.Irc.Operators[k] != nil) && (forall k int :: 0 <= k && k < len(S.Config.Irc.Services) ==> S.Config.Irc.Services[k] != nil)
@@ -942,6 +946,8 @@ package ircserver
 //@   requires state: i != nil && wfLocks(i) && sessShape(i) && i.channels != nil && i.svsholds != nil && i.Config.Banned != nil
 // no two sessions own nicknames that are equal under the case mapping (wfOwner, wfNicks: the handlers' invariant)
 //@   requires only-sessnicks-owner: wfOwner(i) && wfNicks(i) && wfAlive(i)
+// keys of the nickname holds are lowered nicknames (inserted as NickToLower(...) only)
+//@   requires only-holds-canonical: forall n lcNick :: n in i.svsholds ==> NickToLower(n) == n
 //@   requires legacy-created: forall x robust.Id :: x in i.sessions ==> i.sessions[x].Created > 0 && !i.sessions[x].LastNonPing.IsZero()
 // user modes are letters: nothing below 'A' is ever set (cmdMode only sets parsed mode letters)
 //@   requires modes-letters: forall x robust.Id, m int :: x in i.sessions && 0 <= m && m < 65 ==> !i.sessions[x].modes[m]
@@ -991,6 +997,7 @@ package ircserver
 //@     invariant sess-l30: forall x robust.Id :: x in i.sessions ==> (exists k int :: 0 <= k && k < len(sessions) && snapId(sessions[k]) == x)
 //@     invariant sess-l31: forall a int, b int {sessions[a], sessions[b]} :: 0 <= a && a < b && b < len(sessions) ==> snapId(sessions[a]) != snapId(sessions[b])
 //@   loop range i.svsholds
+//@     invariant holds: svsholds != nil && allocated(svsholds) && (forall n lcNick :: seen(n) <==> n in svsholds) && (forall n string :: n in svsholds ==> svsholds[n] != nil && allocated(svsholds[n]) && allocated(svsholds[n].Added) && n in i.svsholds && holdRepr(svsholds[n], i.svsholds[n]) && parseok(svsholds[n].Duration))
 //@     invariant sess-l32: forall k int :: 0 <= k && k < len(sessions) ==> sessEntryOK(sessions[k], i)
 //@     invariant sess-l33: forall x robust.Id :: x in i.sessions ==> (exists k int :: 0 <= k && k < len(sessions) && snapId(sessions[k]) == x)
 //@     invariant sess-l34: forall a int, b int {sessions[a], sessions[b]} :: 0 <= a && a < b && b < len(sessions) ==> snapId(sessions[a]) != snapId(sessions[b])
@@ -1003,8 +1010,10 @@ package ircserver
 //@     invariant sess-l39: forall x robust.Id :: x in i.sessions ==> (exists k int :: 0 <= k && k < len(sessions) && snapId(sessions[k]) == x)
 //@     invariant sess-l40: forall a int, b int {sessions[a], sessions[b]} :: 0 <= a && a < b && b < len(sessions) ==> snapId(sessions[a]) != snapId(sessions[b])
 //@   loop range i.Config.IRC.Operators
+//@     invariant holds: svsholds != nil && allocated(svsholds) && (forall n lcNick :: n in i.svsholds <==> n in svsholds) && (forall n string :: n in svsholds ==> svsholds[n] != nil && allocated(svsholds[n]) && allocated(svsholds[n].Added) && holdRepr(svsholds[n], i.svsholds[n]) && parseok(svsholds[n].Duration))
 //@     invariant config-l41: 0 - 1 <= rangeindex && rangeindex < len(i.Config.IRC.Operators) && len(operators) == rangeindex + 1 && (forall k int :: 0 <= k && k < len(operators) ==> operators[k] != nil && allocated(operators[k]) && operators[k].Name == i.Config.IRC.Operators[k].Name && operators[k].Password == i.Config.IRC.Operators[k].Password)
 //@   loop range i.Config.IRC.Services
+//@     invariant holds: svsholds != nil && allocated(svsholds) && (forall n lcNick :: n in i.svsholds <==> n in svsholds) && (forall n string :: n in svsholds ==> svsholds[n] != nil && allocated(svsholds[n]) && allocated(svsholds[n].Added) && holdRepr(svsholds[n], i.svsholds[n]) && parseok(svsholds[n].Duration))
 //@     invariant config-l42: len(operators) == len(i.Config.IRC.Operators) && (forall k int :: 0 <= k && k < len(operators) ==> operators[k] != nil && allocated(operators[k]) && operators[k].Name == i.Config.IRC.Operators[k].Name && operators[k].Password == i.Config.IRC.Operators[k].Password)
 //@     invariant config-l43: 0 - 1 <= rangeindex && rangeindex < len(i.Config.IRC.Services) && len(services) == rangeindex + 1 && (forall k int :: 0 <= k && k < len(services) ==> services[k] != nil && allocated(services[k]) && services[k].Password == i.Config.IRC.Services[k].Password)
 //@   assert@call proto.Marshal#0 : sess-same: sameslice(snapshot.Sessions, sessions)
@@ -1014,6 +1023,7 @@ package ircserver
 //@   assert@call proto.Marshal#0 : sess-sessions: wfSnapSessions(addrof(snapshot))
 //@   assert@call proto.Marshal#0 : sessnicks: wfSnapNicks(addrof(snapshot))
 //@   assert@call proto.Marshal#0 : sess-sessions-repr: forall k int :: 0 <= k && k < len(sessions) ==> sessEntryOK(sessions[k], i)
+//@   assert@call proto.Marshal#0 : holds: snapshot.Svsholds == svsholds && holdsRepr(addrof(snapshot), i) && wfSnapHolds(addrof(snapshot))
 //@   assert@call proto.Marshal#0 : config: snapshot.Config == config && cfgRepr(config, addrof(i.Config)) && cfgTextOK(config)
 //@   assert@call proto.Marshal#0 : config-top: snapshot.LastProcessed != nil && snapshot.LastProcessed.Id == i.lastProcessed.Id && snapshot.LastProcessed.Reply == i.lastProcessed.Reply && snapshot.LastIncludedIndex == lastIncludedIndex
 //@   assert@call proto.Marshal#0 : config-top-shape: wfSnapTop(addrof(snapshot))
@@ -1021,17 +1031,18 @@ package ircserver
 // Unmarshal into a fresh server. The three error returns for unparsable
 // durations and key are unreachable for a snapshot written by Marshal.
 //@ func IRCServer.Unmarshal
-//@   opt dead = return#3 return#4 return#5
+//@   opt dead = return#2 return#3 return#4 return#5
 //@   opt sidx0 = true
-//@   requires fresh-server: i != nil && i.sessions != nil && i.nicks != nil && i.channels != nil && i.svsholds != nil && (forall x robust.Id :: !(x in i.sessions)) && (forall n lcNick :: !(n in i.nicks)) && len(i.serverSessions) == 0
-//@   assume@after proto.Unmarshal#0 : written-by-marshal: wfSnapSessions(addrof(snapshot)) && wfSnapTop(addrof(snapshot)) && wfSnapNicks(addrof(snapshot))
-//@   loopinv i.sessions != nil && i.nicks != nil && i.channels != nil && i.svsholds != nil && wfSnapSessions(addrof(snapshot)) && wfSnapTop(addrof(snapshot)) && wfSnapNicks(addrof(snapshot))
+//@   requires fresh-server: i != nil && i.sessions != nil && i.nicks != nil && i.channels != nil && i.svsholds != nil && (forall x robust.Id :: !(x in i.sessions)) && (forall n lcNick :: !(n in i.nicks)) && (forall n lcNick :: !(n in i.svsholds)) && len(i.serverSessions) == 0
+//@   assume@after proto.Unmarshal#0 : written-by-marshal: wfSnapSessions(addrof(snapshot)) && wfSnapTop(addrof(snapshot)) && wfSnapNicks(addrof(snapshot)) && wfSnapHolds(addrof(snapshot))
+//@   loopinv i.sessions != nil && i.nicks != nil && i.channels != nil && i.svsholds != nil && wfSnapSessions(addrof(snapshot)) && wfSnapTop(addrof(snapshot)) && wfSnapNicks(addrof(snapshot)) && wfSnapHolds(addrof(snapshot))
 // group sessin: the decoded sessions are exactly the sessions of the server, each under its own id
 //@   assert@mapupdate i.sessions#0 : sessin-newid: forall k int :: 0 <= k && k <= rangeindex ==> snapId(snapshot.Sessions[k]) != snapId(s)
 //@   assert@mapupdate i.sessions#0 : sessin-id: newSession.Id == snapId(s) && newSession != nil
 // group sessrepr: field by field
 //@   assert@mapupdate i.sessions#0 : sessrepr-built: sessRepr(s, newSession)
 //@   loop range snapshot.Sessions
+//@     invariant holds: forall n lcNick :: !(n in i.svsholds)
 //@     invariant sessin-bound: 0 - 1 <= rangeindex && rangeindex < len(snapshot.Sessions)
 //@     invariant sessin: forall k int :: 0 <= k && k <= rangeindex ==> snapId(snapshot.Sessions[k]) in i.sessions && i.sessions[snapId(snapshot.Sessions[k])] != nil && allocated(i.sessions[snapId(snapshot.Sessions[k])]) && i.sessions[snapId(snapshot.Sessions[k])].Id == snapId(snapshot.Sessions[k]) && i.sessions[snapId(snapshot.Sessions[k])].Nick == snapshot.Sessions[k].Nick && (i.sessions[snapId(snapshot.Sessions[k])].Server <==> snapshot.Sessions[k].Server)
 //@     invariant sessin-only: forall x robust.Id :: x in i.sessions ==> (exists k int :: 0 <= k && k <= rangeindex && snapId(snapshot.Sessions[k]) == x)
@@ -1052,32 +1063,43 @@ package ircserver
 // group chans: memberships and invitations become sets of lowered names (reader side only: the
 // matching obligation for Marshal is not discharged, see DESIGN.md)
 //@   loop range s.Channels
+//@     invariant holds: forall n lcNick :: !(n in i.svsholds)
 //@     invariant chans: 0 - 1 <= rangeindex && rangeindex < len(s.Channels) && channels != nil && allocated(channels) && (forall ch lcChan :: ch in channels <==> (exists j int :: 0 <= j && j <= rangeindex && ChanToLower(s.Channels[j]) == ch))
 //@   loop range s.InvitedTo
+//@     invariant holds: forall n lcNick :: !(n in i.svsholds)
 //@     invariant chans: 0 - 1 <= rangeindex && rangeindex < len(s.InvitedTo) && invitedTo != nil && allocated(invitedTo) && channels != nil && allocated(channels) && invitedTo != channels && (forall ch lcChan :: ch in invitedTo <==> (exists j int :: 0 <= j && j <= rangeindex && ChanToLower(s.InvitedTo[j]) == ch)) && (forall ch lcChan :: ch in channels <==> (exists j int :: 0 <= j && j < len(s.Channels) && ChanToLower(s.Channels[j]) == ch))
 //@   assert@mapupdate i.sessions#0 : chans-built: chansRepr(s, newSession) && allocated(newSession.Channels) && allocated(newSession.invitedTo)
 // group modes: user modes are decoded letter by letter
 //@   loop range s.Modes
+//@     invariant holds: forall n lcNick :: !(n in i.svsholds)
 //@     invariant modes: 0 - 1 <= rangeindex && rangeindex < len(s.Modes) && forall m int :: 0 <= m && m < 122 ==> (modes[m] <==> (exists j int :: 0 <= j && j <= rangeindex && s.Modes[j][0] == m))
 //@   assert@mapupdate i.sessions#0 : modes-built: modesRepr(s, newSession)
 // the loops after the session loop write other mode arrays only
 //@   loop range snapshot.Channels
+//@     invariant holds: forall n lcNick :: !(n in i.svsholds)
 //@     invariant modes: forall k int :: 0 <= k && k < len(snapshot.Sessions) ==> modesRepr(snapshot.Sessions[k], i.sessions[snapId(snapshot.Sessions[k])])
 //@   loop range c.Nicks
+//@     invariant holds: forall n lcNick :: !(n in i.svsholds)
 //@     invariant modes: forall k int :: 0 <= k && k < len(snapshot.Sessions) ==> modesRepr(snapshot.Sessions[k], i.sessions[snapId(snapshot.Sessions[k])])
 //@   loop range channelNickModes.Mode
+//@     invariant holds: forall n lcNick :: !(n in i.svsholds)
 //@     invariant modes: forall k int :: 0 <= k && k < len(snapshot.Sessions) ==> modesRepr(snapshot.Sessions[k], i.sessions[snapId(snapshot.Sessions[k])])
 //@   loop range c.Modes
+//@     invariant holds: forall n lcNick :: !(n in i.svsholds)
 //@     invariant modes: forall k int :: 0 <= k && k < len(snapshot.Sessions) ==> modesRepr(snapshot.Sessions[k], i.sessions[snapId(snapshot.Sessions[k])])
 //@   loop range c.Bans
+//@     invariant holds: forall n lcNick :: !(n in i.svsholds)
 //@     invariant modes: forall k int :: 0 <= k && k < len(snapshot.Sessions) ==> modesRepr(snapshot.Sessions[k], i.sessions[snapId(snapshot.Sessions[k])])
 //@   loop range snapshot.Svsholds
+//@     invariant holds: (forall name string :: seen(name) ==> name in snapshot.Svsholds && NickToLower(name) in i.svsholds && holdRepr(snapshot.Svsholds[name], i.svsholds[NickToLower(name)])) && (forall n lcNick :: n in i.svsholds ==> (exists name string :: seen(name) && NickToLower(name) == n))
 //@     invariant modes: forall k int :: 0 <= k && k < len(snapshot.Sessions) ==> modesRepr(snapshot.Sessions[k], i.sessions[snapId(snapshot.Sessions[k])])
 // group config
 //@   loop range snapshot.Config.Irc.Operators
+//@     invariant holds: holdsRepr(addrof(snapshot), i)
 //@     invariant modes: forall k int :: 0 <= k && k < len(snapshot.Sessions) ==> modesRepr(snapshot.Sessions[k], i.sessions[snapId(snapshot.Sessions[k])])
 //@     invariant config-ops: 0 - 1 <= rangeindex && rangeindex < len(snapshot.Config.Irc.Operators) && len(operators) == len(snapshot.Config.Irc.Operators) && (forall k int :: 0 <= k && k <= rangeindex ==> operators[k].Name == snapshot.Config.Irc.Operators[k].Name && operators[k].Password == snapshot.Config.Irc.Operators[k].Password)
 //@   loop range snapshot.Config.Irc.Services
+//@     invariant holds: holdsRepr(addrof(snapshot), i)
 //@     invariant modes: forall k int :: 0 <= k && k < len(snapshot.Sessions) ==> modesRepr(snapshot.Sessions[k], i.sessions[snapId(snapshot.Sessions[k])])
 //@     invariant config-ops: len(operators) == len(snapshot.Config.Irc.Operators) && (forall k int :: 0 <= k && k < len(operators) ==> operators[k].Name == snapshot.Config.Irc.Operators[k].Name && operators[k].Password == snapshot.Config.Irc.Operators[k].Password)
 //@     invariant config-svc: 0 - 1 <= rangeindex && rangeindex < len(snapshot.Config.Irc.Services) && len(services) == len(snapshot.Config.Irc.Services) && (forall k int :: 0 <= k && k <= rangeindex ==> services[k].Password == snapshot.Config.Irc.Services[k].Password)
@@ -1087,6 +1109,8 @@ package ircserver
 //@   assert@return snapshot.LastIncludedIndex, nil#0 : sessrepr: forall k int :: 0 <= k && k < len(snapshot.Sessions) ==> sessRepr(snapshot.Sessions[k], i.sessions[snapId(snapshot.Sessions[k])])
 //@   assert@return snapshot.LastIncludedIndex, nil#0 : modes: forall k int :: 0 <= k && k < len(snapshot.Sessions) ==> modesRepr(snapshot.Sessions[k], i.sessions[snapId(snapshot.Sessions[k])])
 //@   assert@return snapshot.LastIncludedIndex, nil#0 : chans: forall k int :: 0 <= k && k < len(snapshot.Sessions) ==> chansRepr(snapshot.Sessions[k], i.sessions[snapId(snapshot.Sessions[k])])
+//@   assert@mapupdate i.svsholds#0 : holds-new: nickName in snapshot.Svsholds && s == snapshot.Svsholds[nickName] && (forall name string :: seen(name, "range snapshot.Svsholds") && name != nickName ==> name in snapshot.Svsholds && NickToLower(name) != NickToLower(nickName))
+//@   assert@return snapshot.LastIncludedIndex, nil#0 : holds: holdsRepr(addrof(snapshot), i)
 //@   assert@return snapshot.LastIncludedIndex, nil#0 : nicks: wfNicksLoaded(i)
 //@   assert@return snapshot.LastIncludedIndex, nil#0 : nicks-owner: forall x robust.Id :: x in i.sessions && i.sessions[x].Nick != "" ==> NickToLower(i.sessions[x].Nick) in i.nicks && i.nicks[NickToLower(i.sessions[x].Nick)] == i.sessions[x]
 //@   assert@return snapshot.LastIncludedIndex, nil#0 : services: forall x robust.Id :: x in i.sessions && i.sessions[x].Server ==> (exists j int :: 0 <= j && j < len(i.serverSessions) && i.serverSessions[j] == x.Id)
